@@ -20,8 +20,13 @@ What a run does, against the CURRENT working tree of the crate:
     is about to fail is explained by naming the table entries (each becomes a problem with a key);
  3. C13 / C19 / C12: builds the crate as an rlib into work/probe-target (never /repo/target), generates
     the probe corpus from the tables (probes/gen_tables.py) and lets rustc decide each probe, 16 in
-    parallel; accepted probes that carry a scenario are linked and run (black parent / white child,
-    full cycle, destructor flag);
+    parallel; accepted probes that carry a scenario are linked and run: the store is executed once per
+    collector schedule (Sleeping; after finish_marking() inside mutate / inside mutate_root / inside
+    mutate right after a mutate_root that touched only a root field; after K = 1..5 partial mark steps;
+    Sweeping), each in a fresh arena followed by finish_cycle() x2, and C01 is judged by destructor
+    flags only (stored child alive, orphan gone).  When more than three legitimate-use store probes
+    fail together the barrier itself is at fault and they are reported as ONE problem naming the
+    failing schedules;
  4. compares: the model's verdict on a table entry predicts rustc's verdict on the entry's attack
     probe (entry acceptable -> rejected; entry violating -> accepted and, when run, unsafe); a
     misuse probe must be rejected and a legitimate twin must compile and run safely whatever the
@@ -845,6 +850,21 @@ def run(prop, tier, seed):
             res["programs"] += len(probes)
             res["disagreements_checked"] += len(probes)
             res["distinct_nontrivial"] += len({p["src"] for p in probes})
+            # many legitimate-use store probes failing together point at the barrier / collector, not at
+            # the individual table rows: report them as ONE problem (first program = replay)
+            lost = [c for c in corr if c["failing"] and c["probe"]["role"] == "use"]
+            if prop == "C13" and len(lost) > 3:
+                corr = [c for c in corr if c not in lost]
+                p0, r0 = lost[0]["probe"], lost[0]["result"]
+                scheds = sorted({m for c in lost for m in re.findall(r'"([a-f]\d?)"', (c["result"]["run_out"].split(":", 2) + ["", ""])[1])})
+                problem("c13-store-probes-lose-the-child", f"{len(lost)} accepted store probes of the C13 corpus (every Write constructor / DerefWrite / IndexWrite / Unlock path and the "
+                        f"Gc<Lock>/Gc<RefLock>/Gc<OnceLock> shorthands) violate C01 when run under schedule(s) {scheds}: {r0['run_out'][:200]}", True,
+                        [f"property C13: {len(lost)} legitimate store programs, accepted by rustc, lose a child stored in a reachable object under the schedule matrix "
+                         f"(schedules failing: {scheds}; see the comment block in the program for their meaning)",
+                         "probes: " + ", ".join(c["probe"]["name"] for c in lost),
+                         f"replay (first of them, `{p0['name']}`): rustc --edition 2024 --extern gc_arena=<…/libgc_arena.rlib> -L dependency=<…/deps> <this file> && ./<binary>",
+                         f"its output: {r0['run_out'][:300]}"],
+                        p0["src"].splitlines(), key=None)
             for c in corr:
                 p, r = c["probe"], c["result"]
                 if c["failing"] and p["entry"] in demos and p["entry"] in violating:
